@@ -85,24 +85,6 @@ func runRequests(r *common.Run, sk *sink, caseNo int, rng *rand.Rand, seed int64
 		r.Inconclusive(fmt.Sprintf("case %d: start failed: %v", caseNo, err))
 		return
 	}
-	members := c.Members(3)
-	mkcfg := func(h *cluster.Host) (cfg2 interface{}) { return nil }
-	_ = mkcfg
-	for _, h := range c.Hosts {
-		cfg := cluster.ShardConfig(shardID, uint64(h.Index+1))
-		cfg.SnapshotEntries, cfg.CompactionOverhead = 50, 5
-		if err := h.StartReplica(members, false, kind, cfg); err != nil {
-			r.Inconclusive(fmt.Sprintf("case %d: %v", caseNo, err))
-			c.StopAll()
-			return
-		}
-	}
-	replicas := map[uint64]int{1: 0, 2: 1, 3: 2}
-	if !waitFor(15*time.Second, func() bool { return c.LeaderHost(shardID, replicas) >= 0 }) {
-		r.Inconclusive(fmt.Sprintf("case %d: no leader", caseNo))
-		c.StopAll()
-		return
-	}
 	var recMu sync.Mutex
 	var recs []*reqRec
 	var watchers sync.WaitGroup
@@ -189,7 +171,16 @@ func runRequests(r *common.Run, sk *sink, caseNo int, rng *rand.Rand, seed int64
 			rs, err = nh.ReadIndex(shardID, to)
 		case x < 18:
 			rec.kind = "snapshot"
-			rs, err = nh.RequestSnapshot(shardID, dragonboat.SnapshotOption{}, to)
+			opt := dragonboat.SnapshotOption{}
+			if prng.Intn(3) == 0 {
+				// exported snapshots are also taken when nothing new was applied
+				opt.Exported = true
+				opt.ExportPath = fmt.Sprintf("/export-%d", cluster.NewID())
+				if h.FS.MkdirAll(opt.ExportPath, 0o755) != nil {
+					return
+				}
+			}
+			rs, err = nh.RequestSnapshot(shardID, opt, to)
 		case x < 19:
 			rec.kind = "querylog"
 			rs, err = nh.QueryRaftLog(shardID, 1, 5, 1024)
@@ -206,6 +197,31 @@ func runRequests(r *common.Run, sk *sink, caseNo int, rng *rand.Rand, seed int64
 		addRec(rec)
 		watchers.Add(1)
 		go watch(rs, rec, release)
+	}
+	members := c.Members(3)
+	for _, h := range c.Hosts {
+		cfg := cluster.ShardConfig(shardID, uint64(h.Index+1))
+		cfg.SnapshotEntries, cfg.CompactionOverhead = 50, 5
+		if err := h.StartReplica(members, false, kind, cfg); err != nil {
+			r.Inconclusive(fmt.Sprintf("case %d: %v", caseNo, err))
+			c.StopAll()
+			return
+		}
+	}
+	// requests of every kind from the first moment on: replicas that have not applied anything
+	// yet (no membership, no leader) must answer them as well
+	early := rand.New(rand.NewSource(seed ^ 0xea71))
+	for i := 0; i < 60; i++ {
+		issue(0, early)
+		if i%6 == 5 {
+			time.Sleep(time.Millisecond)
+		}
+	}
+	replicas := map[uint64]int{1: 0, 2: 1, 3: 2}
+	if !waitFor(15*time.Second, func() bool { return c.LeaderHost(shardID, replicas) >= 0 }) {
+		r.Inconclusive(fmt.Sprintf("case %d: no leader", caseNo))
+		c.StopAll()
+		return
 	}
 	var wg sync.WaitGroup
 	for g := 0; g < 12; g++ {
